@@ -20,7 +20,7 @@ from ..core import Raw
 
 def shapes(tier):
     out = []
-    for l, r in ((1, 1), (2, 1), (2, 2), (3, 2)) if tier == "quick" else ((1, 1), (2, 1), (2, 2), (3, 1), (3, 2), (3, 3)):
+    for l, r in ((1, 1), (2, 1), (2, 2), (3, 2), (3, 3)) if tier == "quick" else ((1, 1), (2, 1), (2, 2), (3, 1), (3, 2), (3, 3)):
         for br in ((3, 4) if tier == "quick" else (2, 3, 4, 5)):
             for m in (1, 2) if tier == "quick" else (1, 2, 3, 4):
                 if 2 * m > (br + 1) * r or 2 * m > br * l:
